@@ -38,7 +38,7 @@ REQUIRED_THEOREMS = [
     "source_vertex_to_corners_reads_table", "source_vertex_to_vertices_reads_table",
     # round 7
     "source_face_first_corner_table_eq_model", "source_face_to_first_corner_eq_model", "source_face_to_corners_eq_model", "source_face_to_faces_eq_model", "source_cached_accessors_eq_model",
-    "umbrella_check_complete", "umbrella_check_iff", "ring_sorted_of_check",
+    "umbrella_check_complete", "umbrella_check_iff", "ring_sorted_of_check", "source_corner_to_face_eq_model",
 ]
 TRUSTED = [
     "Lean 4.33.0 kernel; axioms ⊆ {propext, Classical.choice, Quot.sound}",
@@ -856,7 +856,7 @@ def _smap():
               
               
               
-              "SurfaceMesh._Connectivity.corner_to_face",
+              
               
               
               ]:
